@@ -25,7 +25,12 @@ RULE = ("bin tables of 1..6 chromosomes (incl. X/Y) x 1..400 bins, optional cent
         "(`cnvkit.py segment` on a written .cnr: -m METHOD, --drop-low-coverage present/absent, --drop-outliers {absent = 10, 0, 3, 10}, "
         "-p {absent = 1, N, bare = all CPUs}, -t {absent, FDR for haar, smoothing window for the HMMs}; the table handed to the "
         ".cns writer is judged like an API result, the written .cns must read back equal to it, and the same call through the "
-        "API with the same threshold must give the same segments). non-trivial = a bin was filtered out or a chromosome "
+        "API with the same threshold must give the same segments). Fallback cells: per method (none, haar, an HMM) a table / chromosome / "
+        "arm losing every bin to skip_low, zero weights or min_weight; and transfer_fields(segments, cnarr) called on its own "
+        "(op transfer: bin table with / without weight column x with / without depth column, one chromosome or several, "
+        "segments = runs of bins of which a third span zero-weight bins only and a fifth are left out, segment table with 6 / 8 / "
+        "permuted columns, no segments -> the make_null_segment tuple, no bins -> segments unchanged), each real row judged by "
+        "the Lean row oracle transferSpec and compared with the model transferFields. non-trivial = a bin was filtered out or a chromosome "
         "was split into arms or more than one segment was reported; distinct by hash")
 EXHAUSTIVE = {"quick": False, "thorough": False}
 ASSUMPTIONS = ["input bins sorted, non-overlapping, positive length (a .cnr table)",
@@ -174,7 +179,95 @@ def gen_cases(rng, tier):
     crng.setstate(rng.getstate())
     for k in range(max(5, n // 6)):
         cases.append(_cli_case(crng, k % len(METHODS), k // len(METHODS)))
+    # fallback branches (separate stream again: everything above is unchanged): units / tables without a survivor
+    # through do_segmentation, and transfer_fields called on its own (tables without weight / depth column,
+    # segments over zero-weight bins only, no segments, no bins)
+    frng = random.Random()
+    frng.setstate(crng.getstate())
+    for k in range(max(9, n // 8)):
+        cases.append(_dead_case(frng, ("none", "haar", "hmm", "hmm-tumor", "hmm-germline")[k % 3 if k < 9 else k % 5], k // 3))
+    for k in range(max(24, n // 4)):
+        cases.append(_transfer_case(frng, k))
     return cases
+
+
+def _dead_case(rng, method, rnd):
+    """do_segmentation on a table in which a whole arm / chromosome / the whole table loses every bin to skip_low or
+    to the weight filter (`if not len(filtered_cn): return filtered_cn` -- no segment for that unit, and a table
+    without segments when nothing survives)"""
+    what = ("table", "chrom", "arm")[rnd % 3]
+    how = ("null", "w0", "minw")[(rnd // 3 + rnd) % 3]
+    rows = []
+    names = ["chr1", "chr2"] if rng.random() < 0.7 else ["chr1"]
+    for ci, c in enumerate(names):
+        n = rng.randint(104, 130) if (what == "arm" and ci == 0) else rng.choice([1, 3, 9, 25])
+        if method.startswith("hmm") and n < 25:
+            n = rng.choice([25, 40, 60])  # (too few surviving bins make pomegranate fail: finding U, not the point here)
+        cm = rng.randint(52, n - 52) if n > 103 else -1
+        side = rng.random() < 0.5
+        pos = rng.randint(0, 5000)
+        for k in range(n):
+            if k == cm:
+                pos += 10 ** 6
+            dead = what == "table" or (ci == 0 and (what == "chrom" or (k < cm) == side))
+            lg, w = round(rng.gauss(0, 0.1), 4), round(rng.uniform(0.4, 1.0), 3)
+            depth = round(50 * 2.0 ** lg, 3)
+            if dead and how == "null":
+                lg, depth = -20.0, 0.0
+            elif dead and how == "w0":
+                w = 0.0
+            elif dead and how == "minw":
+                w = round(rng.uniform(0.01, 0.29), 3)
+            ln = rng.randint(50, 500)
+            rows.append([c, pos, pos + ln, "G%d" % (k // 4), lg, w, depth])
+            pos += ln + rng.choice([0, 0, 700])
+    i = {"bins": rows, "method": method, "skip_low": how == "null", "skip_outliers": rng.choice([0, 10]),
+         "min_weight": 0.3 if how == "minw" else 0, "processes": rng.choice([1, 1, 2]),
+         "index": rng.choice(["default", "offset"]), "cols": rng.choice(["api", "fix"]), "extra": None, "call": "kw"}
+    return {"op": "segment", "tag": "dead-%s-%s-%s" % (what, how, method), "in": i}
+
+
+def _transfer_case(rng, k):
+    """transfer_fields(segments, cnarr) on its own.  The segments are consecutive runs of the unit's bins (first bin's
+    start to last bin's end, as every segmenter reports them; some runs left out, so that the end-point stretch has
+    work to do); stretches of zero-weight bins coincide with a run in half of the cases."""
+    kind = ("table", "table", "table", "nosegs", "table", "nobins")[k % 6]
+    has_w = (k // 2) % 2 == 0
+    has_d = (k // 3) % 3 != 0
+    rows = [r for r in _table(rng, False)]
+    chroms = list(dict.fromkeys(r[0] for r in rows))
+    if rng.random() < 0.6:  # a unit of the per-arm methods: one chromosome; else the whole table (HMM methods)
+        c = rng.choice(chroms)
+        rows = [r for r in rows if r[0] == c]
+    rows = rows[:rng.choice([1, 2, 5, 12, 40, 400])] if rng.random() < 0.7 else rows
+    segs = []
+    by = {}
+    for idx, r in enumerate(rows):
+        by.setdefault(r[0], []).append(idx)
+    for c, idxs in by.items():
+        cuts = sorted(set(rng.sample(range(1, len(idxs)), min(len(idxs) - 1, rng.choice([0, 1, 2, 5])))) if len(idxs) > 1 else [])
+        runs = [idxs[a:b] for a, b in zip([0] + cuts, cuts + [len(idxs)])]
+        for run in runs:
+            z = rng.random()
+            if z < 0.35:
+                for j in run:
+                    rows[j][5] = 0.0  # a segment that spans zero-weight bins only
+            elif z < 0.45:
+                for j in run:
+                    rows[j][5] = 1.0
+            if len(runs) > 1 and rng.random() < 0.2:
+                continue  # run without a segment (its bins were all filtered out)
+            segs.append([c, rows[run[0]][1], rows[run[-1]][2], rng.choice(["-", "junk"]), round(rng.gauss(0, 0.5), 4),
+                         len(run), round(rng.uniform(0, 9), 3), round(rng.uniform(0, 9), 3)])
+    if not segs and rows:
+        segs.append([rows[0][0], rows[0][1], rows[-1][2] if rows[-1][0] == rows[0][0] else rows[0][2], "-", 0.25, 1, 1.0, 1.0])
+    if kind == "nosegs":
+        segs = []
+    elif kind == "nobins":
+        rows = []
+    i = {"bins": rows, "segs": segs, "has_weight": has_w, "has_depth": has_d,
+         "segcols": rng.choice(["min", "full", "perm"])}
+    return {"op": "transfer", "tag": "transfer-%s-%s%s" % (kind, "w" if has_w else "nw", "d" if has_d else "nd"), "in": i}
 
 
 def _r6(v):
@@ -214,12 +307,20 @@ def corpus():
     for m in ("none", "haar", "hmm-germline"):
         out.append({"op": "segment", "tag": "corpus-CR", "in": {"bins": rows, "method": m, "skip_low": True,
                                                                "skip_outliers": 0, "min_weight": 0, "processes": 1}})
+    # fallback branches of transfer_fields: zero total weight, no weight column, no depth column, no segments, no bins
+    cn = [["chr1", 0, 10, "A", 0.0, 0.0, 7.0], ["chr1", 10, 20, "A", 1.0, 0.0, 9.0], ["chr1", 20, 30, "B", 1.0, 2.0, 5.0],
+          ["chr1", 30, 40, "-", -1.0, 0.5, 3.0]]
+    sg = [["chr1", 0, 20, "-", 0.5, 2, 0.0, 0.0], ["chr1", 20, 40, "-", 0.25, 2, 0.0, 0.0]]
+    for hw, hd, bins, segs in ((True, True, cn, sg), (False, True, cn, sg), (False, False, cn, sg), (True, False, cn, sg),
+                               (True, True, cn, []), (False, True, cn, []), (True, True, [], sg)):
+        out.append({"op": "transfer", "tag": "corpus-fallback", "in": {"bins": bins, "segs": segs, "has_weight": hw,
+                                                                       "has_depth": hd, "segcols": "full"}})
     return out
 
 
 def classify_hmm_zero_variance(case, impl, resp):
     """finding U: pomegranate refuses a NormalDistribution with stdev 0 (too few / constant autosomal bins)"""
-    return (case["in"]["method"].startswith("hmm") and isinstance(impl, dict)
+    return (case["in"].get("method", "").startswith("hmm") and isinstance(impl, dict)
             and impl.get("__error__") == "ZeroDivisionError" and "NormalDistribution" in impl.get("tb", ""))
 
 
@@ -415,7 +516,111 @@ def _same_segs(a, b):
     return True
 
 
+def _tf_bins(i):
+    """the bins of a transfer case as transfer_fields sees them (no depth column: depth = 2**log2)"""
+    if i["has_depth"]:
+        return i["bins"]
+    import numpy as np
+    return [r[:6] + [float(np.exp2(np.float64(r[4])))] for r in i["bins"]]
+
+
+def _tf_run(case):
+    import pandas as pd
+    from cnvlib import segmentation
+    from cnvlib.cnary import CopyNumArray as CNA
+    i = case["in"]
+    names = ["chromosome", "start", "end", "gene", "log2", "weight", "depth"]
+    df = pd.DataFrame.from_records([tuple(r) for r in i["bins"]], columns=names)
+    if not len(df):
+        df = df.astype({"chromosome": str, "start": int, "end": int, "gene": str, "log2": float, "weight": float, "depth": float})
+    df = df[[c for c in names if (c != "weight" or i["has_weight"]) and (c != "depth" or i["has_depth"])]]
+    snames = ["chromosome", "start", "end", "gene", "log2", "probes", "weight", "depth"]
+    sdf = pd.DataFrame.from_records([tuple(r) for r in i["segs"]], columns=snames)
+    if not len(sdf):
+        sdf = sdf.astype({"chromosome": str, "start": int, "end": int, "gene": str, "log2": float, "probes": int,
+                          "weight": float, "depth": float})
+    scols = {"min": snames[:6], "full": snames,
+             "perm": ["chromosome", "start", "end", "depth", "gene", "weight", "probes", "log2"]}[i["segcols"]]
+    sdf = sdf[scols]
+    segarr = CNA(sdf, {"sample_id": "S"})
+    got = segmentation.transfer_fields(segarr, CNA(df, {"sample_id": "S"}))
+    if isinstance(got, tuple):
+        if len(got) != len(scols):
+            raise AssertionError("make_null_segment: the row does not have one value per column of the segment table")
+        return {"kind": "null", "cols": scols, "row": [v if isinstance(v, str) else frac(float(v)) for v in got]}
+    d = got.data
+    have = {c: (c in d.columns) for c in ("gene", "weight", "depth")}
+    rows = [[str(d["chromosome"].iat[k]), int(d["start"].iat[k]), int(d["end"].iat[k]),
+             str(d["gene"].iat[k]) if have["gene"] else None, frac(float(d["log2"].iat[k])), int(d["probes"].iat[k]),
+             frac(float(d["weight"].iat[k])) if have["weight"] else None,
+             frac(float(d["depth"].iat[k])) if have["depth"] else None] for k in range(len(d))]
+    return {"kind": "rows", "segs": rows, "same_object": got is segarr}
+
+
+def _tf_line(case, impl):
+    i = case["in"]
+    cn = [[b[0], b[1], b[2], b[3], frac(b[4]), frac(b[5]) if i["has_weight"] else frac(1.0), frac(b[6]), False]
+          for b in _tf_bins(i)]
+    segs = [[g[0], g[1], g[2], g[3], frac(g[4]), g[5], frac(g[6]), frac(g[7])] for g in i["segs"]]
+    line = {"op": "transfer", "in": {"cn": cn, "segs": segs, "has_weight": i["has_weight"]}}
+    if not (isinstance(impl, dict) and "__error__" in impl):
+        line["impl"] = impl
+    return line
+
+
+def _tf_judge(case, impl, resp):
+    if isinstance(impl, dict) and "__error__" in impl:
+        return ["raises_" + impl["__error__"]], [], None
+    if "error" in resp:
+        return [], ["model error: " + resp["error"]], None
+    i = case["in"]
+    out, dis = resp["out"], []
+    spec = list(resp.get("spec") or [])
+    names = ["chromosome", "start", "end", "gene", "log2", "probes", "weight", "depth"]
+    if resp["kind"] == "null":
+        if impl["kind"] != "null":
+            return [], ["transfer_fields: model returns the null row of make_null_segment, impl a table"], None
+        want = dict(zip(names, out[0]))
+        for c, v in zip(impl["cols"], impl["row"]):
+            ok = (v == want[c]) if c in ("chromosome", "gene") else _close(v, want[c])
+            if not ok:
+                dis.append(f"transfer_fields null row, column {c}: model {want[c]} impl {v}")
+                break
+        return [], dis, None
+    if impl["kind"] != "rows":
+        return [], [f"transfer_fields: model returns a table ({resp['kind']}), impl the null row"], None
+    segs = impl["segs"]
+    if resp["kind"] == "unchanged":
+        # columns the segment table did not have stay absent
+        present = {"min": names[:6], "full": names, "perm": names}[i["segcols"]]
+    else:
+        present = names
+    if len(out) != len(segs):
+        dis.append(f"transfer_fields: segment count model {len(out)} impl {len(segs)}")
+    else:
+        for k, (m, s) in enumerate(zip(out, segs)):
+            for c, a, b in zip(names, m, s):
+                if c not in present:
+                    ok = b is None
+                elif b is None:
+                    ok = False
+                elif c in ("chromosome", "start", "end", "gene", "probes"):
+                    ok = a == b
+                else:
+                    ok = _close(b, a)
+                if not ok:
+                    dis.append(f"transfer_fields segment {k} column {c} ({resp['kind']}, "
+                               f"{'weight column' if i['has_weight'] else 'no weight column'}, "
+                               f"{'depth column' if i['has_depth'] else 'no depth column'}): model {a} impl {b}")
+                    break
+            if dis:
+                break
+    return spec, dis, None
+
+
 def run_impl(case):
+    if case["op"] == "transfer":
+        return _tf_run(case)
     from cnvlib import segmentation
     i = case["in"]
     method = i["method"]
@@ -485,6 +690,8 @@ def _runs(segs, units_bins, keeps):
 
 
 def to_line(case, impl):
+    if case["op"] == "transfer":
+        return _tf_line(case, impl)
     i = case["in"]
     method = i["method"]
     per_arm = not method.startswith("hmm")
@@ -511,6 +718,8 @@ def _close(a, b):
 
 
 def judge(case, impl, resp):
+    if case["op"] == "transfer":
+        return _tf_judge(case, impl, resp)
     if isinstance(impl, dict) and "__error__" in impl:
         return ["raises_" + impl["__error__"]], [], None
     if "error" in resp:
@@ -544,12 +753,23 @@ def judge(case, impl, resp):
 def nontrivial(case, impl, resp):
     if isinstance(impl, dict) and "__error__" in impl:
         return False
+    if case["op"] == "transfer":
+        return True
     filtered = any(not k for ks in impl["keeps"] for k in ks)
     chroms = {r[0] for r in case["in"]["bins"]}
     return filtered or len(impl["arms"]) > len(chroms) or len(impl["segs"]) > len(chroms)
 
 
 def shrink(case):
+    if case["op"] == "transfer":
+        # only segments are removed: every remaining one still spans the bins it was cut from
+        sg = case["in"]["segs"]
+        for a in range(len(sg)):
+            if len(sg) > 1:
+                c = {"op": case["op"], "tag": "shrunk", "in": dict(case["in"])}
+                c["in"]["segs"] = sg[:a] + sg[a + 1:]
+                yield c
+        return
     rows = case["in"]["bins"]
     n = len(rows)
     for frac_ in (2, 3):
